@@ -28,11 +28,7 @@ SYNC_DATA = "std::fs::File::sync_data"
 
 def success_paths_pass(ctx, fn, start_after, through, rule, inst, what, extra_err=()):
     """every path from after block `start_after` to a return, not taken via an error edge, passes `through`"""
-    errs = list(extra_err)
-    for b, t in fn.calls():
-        if "Result" in fn.local_ty(t["dest"]["l"]) or "ControlFlow" in fn.local_ty(t["dest"]["l"]):
-            rf = A.result_flow(fn, b)
-            errs.extend(rf.err_blocks)
+    errs = list(extra_err) + list(A.error_starts(fn))
     starts = fn.succs(start_after) if start_after is not None else [0]
     r = A.reach(fn, starts, avoid=list(through) + errs)
     rets = [x for x in fn.return_blocks() if x in r]
